@@ -592,10 +592,14 @@ def _build_and_run(tier, seed, profiles, decls_override=None):
     if nf_todo:
         def flat(sx):
             return " ".join(rustexpr.normalise(sx).split())
-        nf_lines = ["nfcmp %s %s %s" % (n, it, flat(sx)) for (n, it, sx, _) in nf_todo]
+        nf_lines = ["%s %s %s %s" % ("nfcmp" if eq else "nfcmpx", n, it, flat(sx)) for (n, it, sx, eq) in nf_todo]
         was_equal = {(n, it): eq for (n, it, _, eq) in nf_todo}
+        nf_terms = {}
         for line in run_driver(proto + nf_lines):
             w = line.split(" ")
+            if w[0] == "nfterm":
+                nf_terms.setdefault(" ".join(w[3:]), (w[1], w[2]))
+                continue
             if w[0] != "nfres":
                 continue
             key = (w[1], w[2])
@@ -612,7 +616,31 @@ def _build_and_run(tier, seed, profiles, decls_override=None):
         ast["nf_validated"] = [x for x in ast["differ"] if (x[0], x[1]) in validated][:300]
         ast["differ"] = [x for x in ast["differ"] if (x[0], x[1]) not in validated]
         # only the bodies that differ syntactically are registered for the `A` evaluation of the operations
-        nf_lines = [l for l, (n, it, _, eq) in zip(nf_lines, nf_todo) if not eq]
+        nf_lines = ["nfcmp" + l[len("nfcmpx"):] for l, (n, it, _, eq) in zip(nf_lines, nf_todo) if not eq]
+        # the kernel re-checks the compiled driver's `equal` answers (distinct claims, capped): `decide +kernel`
+        cap = int(os.environ.get("VERIF_NF_KERNEL", "400" if tier == "thorough" else "48"))
+        claims = list(nf_terms.items())
+        # spread the sample over the declarations
+        claims.sort(key=lambda kv: zlib.crc32(kv[0].encode()))
+        claims = claims[:cap]
+        nf["kernel_claims_total"] = len(nf_terms)
+        nf["kernel_checked"] = 0
+        nf["kernel_failed"] = []
+        if claims:
+            t0 = time.time()
+            src = ["import BitbybitModel.Symbolic.Nf", "open Bb Bb.Nf", "set_option maxRecDepth 100000"]
+            for i, (claim, (dn, it)) in enumerate(claims):
+                src.append("-- %s %s" % (dn, it))
+                src.append("theorem claim_%d : %s := by decide +kernel" % (i, claim))
+            kpath = os.path.join(WORK_ROOT, "NfKernel.lean")
+            write(kpath, "\n".join(src) + "\n")
+            kp = subprocess.run(["lake", "env", "lean", kpath], cwd=LEAN_DIR, stdout=subprocess.PIPE, stderr=subprocess.STDOUT, text=True)
+            log("kernel re-check of %d validated bodies rc=%d %.1fs" % (len(claims), kp.returncode, time.time() - t0))
+            if kp.returncode == 0:
+                nf["kernel_checked"] = len(claims)
+            else:
+                bad = sorted({int(m) for m in re.findall(r"NfKernel\.lean:(\d+):", kp.stdout)})
+                nf["kernel_failed"] = [[claims[(ln - 4) // 2][1][0], claims[(ln - 4) // 2][1][1]] for ln in bad if 0 <= (ln - 4) // 2 < len(claims)][:20] or [["?", kp.stdout[-300:]]]
     ast["nf"] = {k: (v if not isinstance(v, list) else v[:300]) for k, v in nf.items()}
     ast["nf"]["validated_count"] = len(nf["equal_items"])
     ast["differ_count"] = len(ast["differ"])
